@@ -773,6 +773,96 @@ def docx_contracts():
 
 
 # =====================================================================================
+# (b'') (round 7) DrawingML paragraph text  --  pptx_extractor.py::_extract_text_from_paragraphs
+#
+# Statement: the text of a text body is the text of its paragraphs (a:p, in document order) separated by whitespace; the text of
+# a paragraph is EXACTLY the concatenation, in order, of: the a:t text of every run / field child (a:r, a:fld; nothing when it has no
+# a:t or the a:t is empty), a vertical tab (whitespace: "line-break boundary") for every a:br, the text of a direct a:t child;
+# every other child (a:pPr, a:endParaRPr ...) contributes nothing.  Nothing is lost, duplicated, reordered or invented.
+# =====================================================================================
+PPTX = "sharepoint2text/parsing/extractors/ms_modern/pptx_extractor.py"
+A_ = "{http://schemas.openxmlformats.org/drawingml/2006/main}"
+A_P, A_R, A_T, A_BR, A_FLD = (lit(A_ + x) for x in ("p", "r", "t", "br", "fld"))
+PXP = z3.Function("pptx_paragraph_text", ELEM, I, S)          # exact text of the first k children of a paragraph
+PXN = z3.Function("pptx_paragraphs_nw", ELEM, I, S)
+PXS = z3.Function("pptx_paragraphs_sq", ELEM, I, S)
+
+
+def px_item(c):
+    t = CH(c, FIND_IDX(c, A_T))
+    return z3.If(z3.Or(TAG(c) == A_R, TAG(c) == A_FLD), z3.If(FIND_NONE(c, A_T), lit(""), TEXT(t)),
+                 z3.If(TAG(c) == A_BR, lit("\x0b"), z3.If(TAG(c) == A_T, TEXT(c), lit(""))))
+
+
+def _pxp_def(p_, k):
+    k1 = z3.simplify(k - 1)
+    c = CH(p_, k1)
+    t = CH(c, FIND_IDX(c, A_T))
+    return prefix_def(PXP(p_, k), k, cc(PXP(p_, k1), px_item(c))) + [
+        z3.Implies(TEXT_NONE(c), TEXT(c) == lit("")), z3.Implies(TEXT_NONE(t), TEXT(t) == lit("")), NCH(p_) >= 0]
+
+
+define(PXP, _pxp_def)
+define(PXN, lambda e, k: prefix_def(PXN(e, k), k, cc(PXN(e, z3.simplify(k - 1)), NW(PXP(ET.ITER_AT(e, A_P, z3.simplify(k - 1)), NCH(ET.ITER_AT(e, A_P, z3.simplify(k - 1))))))))
+define(PXS, lambda e, k: prefix_def(PXS(e, k), k, cc(PXS(e, z3.simplify(k - 1)), " ", SQ(PXP(ET.ITER_AT(e, A_P, z3.simplify(k - 1)), NCH(ET.ITER_AT(e, A_P, z3.simplify(k - 1))))))))
+
+PX_CHILD_CASES = [
+    ("run-or-field", lambda t: z3.Or(t == A_R, t == A_FLD)),
+    ("line-break", lambda t: z3.And(t != A_R, t != A_FLD, t == A_BR)),
+    ("direct-text", lambda t: z3.And(t != A_R, t != A_FLD, t != A_BR, t == A_T)),
+    ("other-child", lambda t: z3.And(t != A_R, t != A_FLD, t != A_BR, t != A_T)),
+]
+
+
+def pptx_contracts():
+    FN = find_fn(PPTX, "_extract_text_from_paragraphs", mentions=["A_P", "A_BR", "join"], nparams=1)
+    sg = Sig(PPTX, FN, ["elem"])
+
+    def iter_elem(seq):
+        n = getattr(seq, "length", None)
+        if isinstance(seq, VSeq) and seq.ekind == "Elem" and n is not None and z3.is_app(n) and n.decl().name() == ET.ITER_N.name() and n.arg(1).eq(A_P):
+            return n.arg(0)
+        return None
+
+    def pars_inv(lc):
+        e = iter_elem(lc.seq)
+        (_n0, c0, l0), (_n1, cat, lead) = grown(lc)
+        return Conj([("nw", NW(cat) == cc(NW(c0), PXN(e, lc.i))), ("sq", lead == cc(l0, PXS(e, lc.i)))])
+
+    def kids_inv(lc):
+        p_ = lc.seq.t
+        (_n0, c0, _l0), (_n1, cat, _l1) = grown(lc)
+        last = TAG(CH(p_, z3.simplify(lc.i - 1)))
+        return Conj([(f"exact[{cn}]", z3.Implies(g(last), cat == cc(c0, PXP(p_, lc.i)))) for cn, g in PX_CHILD_CASES])
+
+    def post_nw(c):
+        e = sg(c, "elem").t
+        return NW(c.result.t) == PXN(e, ET.ITER_N(e, A_P))
+
+    def post_sq(c):
+        e = sg(c, "elem").t
+        return sep_claim(SQ(c.result.t), PXS(e, ET.ITER_N(e, A_P)))
+
+    con = under(
+        PPTX, "_extract_text_from_paragraphs", FN,
+        params=sg.params({"elem": p_elem()}),
+        ensures=[need_loops("paragraphs", "children"), ("nw(result)==nw-of-the-paragraph-texts-in-order", X.robust(post_nw)),
+                 ("sq(result)==paragraph-texts-separated-by-whitespace", X.robust(post_sq))],
+        result_maker=lambda ex, st, ctx: VStr(z3.String(fresh_name("paragraphs_text"))),
+        note="paragraph text exact (inner invariant), paragraphs observed through nw / sq; a:br is a vertical tab, i.e. whitespace",
+    )
+
+    def loops(ex, st, node, it):
+        if iter_elem(it) is not None:
+            return matched(ex, LoopSpec(inv=pars_inv, label="paragraphs"))
+        if isinstance(it, VExt) and it.sort == "Elem":
+            return matched(ex, LoopSpec(inv=kids_inv, label="children"))
+        return None
+    con.loop_match = loops
+    return [con]
+
+
+# =====================================================================================
 # (c) slide / document assembly  --  data_types.py
 #
 # Statement: slide text = title, body items, other items (pptx: base text, then every formula between its
@@ -1503,6 +1593,7 @@ def contracts(reg):
     out = []
     out += odf_contracts(reg)
     out += docx_contracts()
+    out += pptx_contracts()
     out += dt_contracts(reg)
     out += html_contracts(reg)
     out += xls_contracts()
